@@ -72,6 +72,8 @@ type Ctx struct {
 	cgKind string
 
 	funcsAll map[*ssa.Function]bool
+	quiet      int // >0: obligations are decided but not recorded (delegation probes)
+	delegDepth int
 	declOf   map[*types.Func]*ast.FuncDecl
 	fileOf   map[*ast.FuncDecl]*packages.Package
 }
@@ -288,6 +290,9 @@ func fname(f *ssa.Function) string {
 // ---- reporting -------------------------------------------------------------
 
 func (c *Ctx) Machinef(format string, a ...interface{}) {
+	if c.quiet > 0 {
+		return
+	}
 	c.Machine = append(c.Machine, fmt.Sprintf(format, a...))
 }
 
@@ -303,6 +308,9 @@ func (c *Ctx) Floor(rule string, n int) { c.floors[rule] = n }
 
 // Ob records one decided obligation.
 func (c *Ctx) Ob(rule, construct string, ok bool, nontrivial bool, format string, a ...interface{}) {
+	if c.quiet > 0 {
+		return
+	}
 	c.Obs = append(c.Obs, Obligation{Rule: rule, Construct: construct, OK: ok, Nontrivial: nontrivial, Detail: fmt.Sprintf(format, a...)})
 }
 
